@@ -20,6 +20,7 @@ package main
 // and the new goroutine's own actions are interference. sync.WaitGroup Add/Done/Wait are actions.
 
 import (
+	"sort"
 	"fmt"
 	"go/types"
 	"strings"
@@ -192,7 +193,13 @@ func (e *Engine) lockBalance(st *State) {
 	if !e.tracksLocks() {
 		return
 	}
-	for k, v := range st.held {
+	var hk []string
+	for k := range st.held {
+		hk = append(hk, k)
+	}
+	sort.Strings(hk)
+	for _, k := range hk {
+		v := st.held[k]
 		if !v || !(strings.HasPrefix(k, "W:") || strings.HasPrefix(k, "R:")) {
 			continue
 		}
@@ -201,7 +208,7 @@ func (e *Engine) lockBalance(st *State) {
 		}
 		e.obligation(st, "lock-balance", "return", False, "the call returns while still holding "+k)
 	}
-	for k := range st.held {
+	for _, k := range hk {
 		if strings.HasPrefix(k, "entry:") && !st.held[strings.TrimPrefix(k, "entry:")] {
 			e.obligation(st, "lock-balance", "return", False, "the call released a lock of its caller: "+k)
 		}
